@@ -177,14 +177,15 @@ def handshake(ctx, paramiko, kex, cipher, mac, hostkey, rekey, gex_pack, asym=No
             raise InfraError("handshake did not finish within 60 s: %r" % (case,))
         if not (tc.is_active() and ts.is_active()):
             problem = "initial handshake failed: client %r server %r" % (tc.get_exception(), ts.get_exception())
-        elif rekey:
-            ev2 = threading.Event()
-            ts.completion_event = ev2
-            try:
-                tc.renegotiate_keys()
-            except Exception as e:  # classified below
-                problem = "rekey failed: %r" % (e,)
-            else:
+        else:
+            for nth in range(int(rekey)):  # one long-lived pair through 1 + rekey key exchanges
+                ev2 = threading.Event()
+                ts.completion_event = ev2
+                try:
+                    tc.renegotiate_keys()
+                except Exception as e:  # classified below
+                    problem = "rekey %d failed: %r" % (nth + 1, e)
+                    break
                 if not ev2.wait(60):
                     raise InfraError("rekey did not finish on the server within 60 s: %r" % (case,))
     finally:
@@ -193,9 +194,18 @@ def handshake(ctx, paramiko, kex, cipher, mac, hostkey, rekey, gex_pack, asym=No
     return case, activations(logc), activations(logs), problem
 
 
-def check_activation(ctx, paramiko, case, role, act):
-    """one activation on one peer against the RFC oracle; returns the (iv, key, mac_key) triple"""
+def check_activation(ctx, paramiko, case, role, act, first_H=None, nth=0):
+    """one activation on one peer against the RFC oracle; returns the (iv, key, mac_key) triple.
+    `first_H` = the exchange hash of this connection's FIRST key exchange: the session identifier of RFC 4253 7.2
+    for every later exchange too (the oracle does not take the transport's word for its session id)."""
     direction, eng, kw, snap = act
+    if first_H is not None and snap["sid"] != first_H:
+        ctx.fail("session-id-not-first-exchange-hash:" + ("first-rekey" if nth == 1 else "later-rekey" if nth > 1
+                                                           else "initial"),
+                 dict(case, role=role, direction=direction, exchange=nth + 1),
+                 "session_id %s at key exchange %d, exchange hash of the first key exchange %s" % (
+                     hx(snap["sid"] or b""), nth + 1, hx(first_H)))
+        snap = dict(snap, sid=first_H)
     c2s = (role == "client") == (direction == "out")
     li, lk, lm = (b"A", b"C", b"E") if c2s else (b"B", b"D", b"F")
     where = dict(case, role=role, direction=direction)
@@ -420,6 +430,49 @@ def run(ctx):
                     ctx.fail("letters-share-key", {"hash": hname, "K": K, "H": hx(H), "sid": hx(sid), "n": n},
                              "two letters derive the same %d bytes" % n)
 
+    # ---------------------------------------------------------------- (g) _set_K_H over a connection's life
+    # one socket-less transport, 1..6 key exchanges through the real _set_K_H; after each: session_id and a derived key
+    seq_cases, seq_reqs = [], []
+    for i in range(400 if ctx.thorough else 80):
+        L = rng.choice([3, 8, 20, 32])
+        letter = bytes([rng.choice(LETTERS)])
+        n = rng.randrange(1, 3 * L)
+        exs = [(rand_K(rng), rand_blob(rng)) for _ in range(rng.choice([1, 2, 3, 3, 4, 6]))]
+        if rng.random() < 0.15 and len(exs) > 1:
+            exs[1] = (exs[1][0], exs[0][1])  # a re-key whose exchange hash repeats
+        seq_cases.append((L, letter, n, exs))
+        seq_reqs.append("seq %d %s %d %s" % (L, letter.hex(), n, " ".join("%d %s" % (k, hx(h)) for k, h in exs)))
+    model_seq = ctx.driver("C04", seq_reqs)
+    for i, (L, letter, n, exs) in enumerate(seq_cases):
+        tt = lib_kdf.bare_transport(paramiko)
+        tt.kex_engine = FakeKex(lib_kdf.ToyHash(L))
+        toks = []
+        case = {"hash": "toy%d" % L, "letter": letter.hex(), "n": n, "exchanges": [(k, hx(h)) for k, h in exs]}
+        for j, (k, h) in enumerate(exs):
+            try:
+                tt._set_K_H(k, h)
+                key = tt._compute_key(letter.decode("ascii"), n)
+            except Exception as e:
+                ctx.fail("set-K-H-raises:" + exc_site(e), dict(case, exchange=j + 1), repr(e))
+                break
+            toks.append("%s:%s" % (hx(tt.session_id or b""), hx(key)))
+            ctx.case(("g", L, letter, n, j, repr(exs[:j + 1])), j >= 1)
+            ctx.dist("set_K_H:exchange%d" % min(j + 1, 4))
+            if tt.session_id != exs[0][1]:
+                ctx.fail("session-id-not-first-exchange-hash:" + ("first-rekey" if j == 1 else "later-rekey" if j > 1
+                                                                   else "initial"), dict(case, exchange=j + 1),
+                         "session_id %s after key exchange %d, first exchange hash %s" % (
+                             hx(tt.session_id or b""), j + 1, hx(exs[0][1])))
+            want = lib_kdf.rfc_kdf(lib_kdf.ToyHash(L), k, h, letter, exs[0][1], n)
+            if key != want:
+                ctx.fail("rekey-key-not-rfc:exchange%d" % min(j + 1, 3), dict(case, exchange=j + 1),
+                         "key %s, RFC 4253 7.2 with the first exchange hash as session id %s" % (hx(key), hx(want)))
+        else:
+            if model_seq is not None and model_seq[i] != " ".join(toks):
+                ctx.disagree("_set_K_H / _compute_key over %d key exchanges" % len(exs), case, model_seq[i], " ".join(toks))
+    sid_fact = lib_kdf.session_id_guarded(paramiko)
+    ctx.extra["session_id_guard"] = {"holds": sid_fact[0], "detail": sid_fact[1]}
+
     # ---------------------------------------------------------------- (f) the IV actually USED on the wire (AES-GCM)
     # Real Packetizer under keys installed by the real _activate_*: every packet from packet 0 on is opened with an
     # independent AES-GCM (cryptography's AESGCM used directly) under the RFC 5647 nonce schedule of the independently
@@ -622,7 +675,7 @@ def run(ctx):
     kexes = [k for k in T._kex_info if not k.startswith("gss-")]
     ciphers, macs = list(T._cipher_info), list(T._mac_info)
     if ctx.thorough:
-        plan = [(kexes[i % len(kexes)], c, m, i % 5 == 0)
+        plan = [(kexes[i % len(kexes)], c, m, (3 if i % 10 == 0 else 2 if i % 5 == 0 else 0))
                 for i, (c, m) in enumerate((c, m) for c in ciphers for m in macs)]
     else:
         # 8 handshakes: every kex hash size, every cipher family, etm / truncated / md5 MACs; seed rotates the rest
@@ -632,7 +685,8 @@ def run(ctx):
                  ("diffie-hellman-group-exchange-sha256", "aes256-gcm@openssh.com"),
                  ("ecdh-sha2-nistp521", "aes128-ctr")]
         fixed = [(k, c) for k, c in fixed if k in kexes and c in ciphers]
-        plan = [(k, c, macs[(i + rot) % len(macs)], i == 0) for i, (k, c) in enumerate(fixed)]
+        # the first pair lives through three key exchanges (initial + two re-keys), the fourth through four
+        plan = [(k, c, macs[(i + rot) % len(macs)], {0: 2, 3: 3}.get(i, 0)) for i, (k, c) in enumerate(fixed)]
         for j in range(2):
             plan.append((rng.choice(kexes), rng.choice(ciphers), rng.choice(macs), False))
     plan = [p + (None,) for p in plan]
@@ -647,11 +701,11 @@ def run(ctx):
             c1, c2 = rng.sample(ciphers, 2)
             m1, m2 = rng.sample(macs, 2)
             asym_pool.append((c1, c2, m1, m2))
-        asym_plan = [(kexes[i % len(kexes)], a, i % 4 == 0) for i, a in enumerate(asym_pool)]
+        asym_plan = [(kexes[i % len(kexes)], a, 2 if i % 4 == 0 else 0) for i, a in enumerate(asym_pool)]
     else:
         fast = [k for k in kexes if k.startswith(("curve25519", "ecdh-sha2-nistp256", "ecdh-sha2-nistp384"))] or kexes
         picks = [asym_pool[(ctx.seed + j) % len(asym_pool)] for j in range(min(2, len(asym_pool)))]
-        asym_plan = [(fast[(ctx.seed + j) % len(fast)], a, j == 0) for j, a in enumerate(picks)]
+        asym_plan = [(fast[(ctx.seed + j) % len(fast)], a, 2 if j == 0 else 0) for j, a in enumerate(picks)]
     for kex, a, rekey in asym_plan:
         plan.append((kex, a[0], a[2], rekey, a))
     for kex, cipher, mac, rekey, asym in plan:
@@ -668,9 +722,14 @@ def run(ctx):
             if {(a[0], (a[3]["cipher"], a[3]["mac"])) for a in ca[:2]} != want and problem is None:
                 from pv.core import InfraError as _IE
                 raise _IE("asymmetric client did not negotiate asymmetrically: %r (wanted %r)" % (got, asym))
-        expected = 4 if rekey else 2
-        cvals = [check_activation(ctx, paramiko, case, "client", a) for a in ca]
-        svals = [check_activation(ctx, paramiko, case, "server", a) for a in sa]
+        expected = 2 * (1 + int(rekey))
+        ctx.dist("handshake-key-exchanges:%d" % (1 + int(rekey)))
+
+        def first_hash(acts):
+            return acts[0][3]["H"] if acts and acts[0][3]["H"] is not None else None
+
+        cvals = [check_activation(ctx, paramiko, case, "client", a, first_hash(ca), j // 2) for j, a in enumerate(ca)]
+        svals = [check_activation(ctx, paramiko, case, "server", a, first_hash(sa), j // 2) for j, a in enumerate(sa)]
         # pair the k-th client-out with the k-th server-in, and vice versa
         for dir_c, dir_s, label in (("out", "in", "client-out/server-in"), ("in", "out", "server-out/client-in")):
             cs = [v for a, v in zip(ca, cvals) if a[0] == dir_c]
@@ -709,7 +768,12 @@ META = {
               "client-out = server-in and server-out = client-in for every cipher/MAC row — stated per direction with that "
               "direction's negotiated algorithm (activateDir_rfc, peers_match_asymmetric: local and remote cipher/MAC may "
               "differ in every size); the six hash inputs are "
-              "pairwise distinct and within a role the in/out letters are disjoint; the IV actually USED on the wire under "
+              "pairwise distinct and within a role the in/out letters are disjoint; over a connection's whole life "
+              "(initial kex + any list of re-keys, induction) session_id stays the exchange hash of the FIRST exchange while "
+              "K/H are those of the last, so every exchange's keys are RFC 7.2 with session id H1 "
+              "(session_id_is_first_exchange_hash, keys_after_rekeys) — resting on the AST fact that .session_id is assigned "
+              "only as None in __init__ and as h directly under `if self.session_id is None:` in _set_K_H "
+              "(session_id_guard_generated); the IV actually USED on the wire under "
               "AES-GCM: with the statement order 'call the engine with the stored IV, then step it' (an AST fact "
               "regenerated from packet.py for send_message and read_message, theorem aead_order_generated) packet k is "
               "sealed/opened with fixed||(counter+k) of the derived 12-byte IV, packet 0 with the derived IV itself "
@@ -719,14 +783,18 @@ META = {
               "are regenerated from transport.py each run. Tied by byte-exact differential runs of the real "
               "_compute_key/_activate_* with a toy hash (ordered pairs local != remote algorithm with differing key/IV/"
               "digest sizes), plus real-hash RFC oracle and real handshakes incl. rekey and asymmetric negotiation (a "
-              "client offering different cipher/MAC lists per direction); for both GCM ciphers, roles and directions the "
+              "client offering different cipher/MAC lists per direction); long-lived real pairs through 3 and 4 key exchanges "
+              "with every exchange's engine keys checked against the RFC derivation under the FIRST exchange hash (the "
+              "oracle records it itself), plus the real _set_K_H/_compute_key over 1-6 exchanges vs the model; "
+              "for both GCM ciphers, roles and directions the "
               "real Packetizer under keys installed by the real _activate_*: every wire packet from packet 0 on is opened "
               "by an independent AES-GCM under the RFC 5647 nonce schedule of the independently derived IV, reference-"
               "sealed packets must be accepted by read_message, and the nonce handed to the engine is compared per packet "
               "with the Lean trace (also at counter carry / overflow boundaries)."),
     "note": ("Trusted: Lean kernel + 3 standard axioms; hashlib; cryptography's AESGCM as the independent AEAD reference; "
-             "the AST pattern matcher for the AEAD use/increment order (pv/lib_kdf.py; a pattern that is not found counts "
-             "as a broken tie); the harness (toy hash twin, RFC oracle, generators); "
+             "the AST pattern matchers for the AEAD use/increment order and for the session_id guard (pv/lib_kdf.py; a "
+             "pattern that is not found counts as false / a broken tie; aliasing writes such as vars(t)['session_id'] are "
+             "outside the matcher); the harness (toy hash twin, RFC oracle, generators); "
              "Message.add_mpint = PV.Base.Wire.encMpint (C39's correspondence). 'Never share a key' beyond distinct "
              "hash inputs rests on collision resistance (hypothesis of keys_differ_of_collision_free). The cipher "
              "engines that consume the keys (cryptography) and K/H/session_id themselves (C06) are outside this property."),
